@@ -90,7 +90,7 @@ func rootGlobal(v ssa.Value) *ssa.Global {
 var pureInitPrefixes = []string{
 	"strings", "strconv", "unicode", "unicode/utf8", "unicode/utf16", "sort", "slices", "maps", "cmp", "errors", "bytes",
 	"regexp", "regexp/syntax", "container/list", "math", "math/bits", "net/http", "net/textproto", "path", "path/filepath",
-	"encoding/base64", "encoding/hex", "html", "net/url", "go/token", "text/", "iter", "io", "bufio", "fmt",
+	"encoding/base64", "encoding/hex", "html", "net/url", "go/", "text/", "iter", "io", "bufio", "fmt", "math/big",
 	"github.com/", "gopkg.in/", "golang.org/x/", "go.yaml.in/",
 }
 
